@@ -26,7 +26,7 @@ Ltac list_eq :=
   | |- @eq (list ?A) (_ :: _) (_ :: _) => apply (f_equal2 (@cons A))
   | |- @eq (list _) [] [] => reflexivity
   end;
-  try match goal with |- @eq (K RS) ?a ?b => change (@eq R a b) end.
+  try match goal with |- @eq _ ?a ?b => change (@eq R a b) end.
 
 (* close a polynomial goal, possibly modulo one "norm = 1" hypothesis *)
 Ltac ring1 H := first [ ring | rewrite <- H; ring | lra | nsatz | nra ].
